@@ -10,6 +10,30 @@ NOTES = ("Runtime monitoring family. ./check <id> quick|thorough rebuilds the ha
          "or too few observations), never a verdict.")
 NOT_APPLICABLE = {}
 CHECKS = {
+    "C06": {
+        "level": "exploration",
+        "technique": "model-based runtime monitor: every backend (Full, Optimal with Poseidon and a toy hasher, PmTree temporary/persistent, RLN-level API in the pm/optimal/full builds) stepped in lockstep with the ideal hash tree (reference Poseidon), per-step root/leaf-count and periodic full observation",
+        "text": "Thousands of generated histories over {set, delete, append, write_range, reset, compute_root} at depths 1..20 (positions inside/at/beyond capacity, empty ranges, ranges ending at capacity or crossing the middle, overwrites, deletes above the mark) are applied to each backend and to an independent ideal-tree model; after every operation root and leaf count, and every few operations / after every rejected operation all leaves and subtree roots (small depths) or touched+boundary+sampled ones are compared. Histories are sampled, not enumerated.",
+        "note": "Trusted: the ideal model and the reference Poseidon; return codes are not compared, only observable state; a panic of a non-batch operation is treated as a rejection whose state must be unchanged.",
+    },
+    "C07": {
+        "level": "exploration",
+        "technique": "model-based proof monitor in states reached by generated histories: structural checks, recomputation with the reference hash, tamper matrix (each sibling/bit) with verdicts predicted by the model, tree's own verify (cfg(zerokit_verif) constructor for PmTree proofs)",
+        "text": "In the states reached by generated histories (after deletes, batch writes, reopen) every position (depth <= 4) or touched/boundary/sampled positions get their membership proof checked: length = depth, LSB-first position decoding, siblings equal to the model's, root recomputed from the stored leaf, acceptance by the backend's verify, rejection for a different leaf, and for each tampered sibling (+1, random, swapped) and flipped direction bit the verdict the model predicts. RLN::get_proof bytes are decoded by the independent decoder.",
+        "note": "Trusted: ideal model + reference Poseidon; PmTreeProof::verif_from_parts hook (constructor only).",
+    },
+    "C08": {
+        "level": "exploration",
+        "technique": "model-based runtime monitor for batch updates (override_range / atomic_operation / set_leaves_from / init_tree_with_leaves) with rejection-leaves-state-unchanged and no-panic oracles",
+        "text": "Batch-heavy generated histories (start around 0/mark/capacity, n in {0,1,2,3,5,17}, removal sets empty/single/contiguous before, inside, after, straddling/duplicated/unsorted/above the mark/beyond capacity) on all backends at trait level and through RLN in the pm/optimal/full builds; after every batch the full observation must equal 'reset removed positions then write n leaves' or, if the model rejects the request, the observation before it; any panic is a violation. Known finding: PmTree batch-both shapes pinned by the baseline suite.",
+        "note": "Trusted: ideal model. Removal-only requests with a start beyond capacity are not generated (undefined by the statement). RLN-level removals are limited to indices 0..255 by the u8 interface.",
+    },
+    "C15": {
+        "level": "exploration",
+        "technique": "model-based runtime monitor of get_empty_leaves_indices (typed and RLN byte form decoded independently) after every mutating operation incl. close/reopen of persistent trees",
+        "text": "Generated histories over all mutating operations (single write, append, range, batch, delete, reset, compute_root as a query that must not change anything, reopen for the persistent backend) on all backends; after each step the reported list must equal the ascending list of positions below the high-water mark that the model records as never written or last removed. Known finding: flags are lost on reopen of a persistent tree.",
+        "note": "Trusted: ideal model's written/removed flags (explicit write of the default value counts as written).",
+    },
     "C03": {
         "level": "exploration",
         "technique": "relation monitor over generated message pairs (recover_id_secret == secret, nullifier relations) with reference-Poseidon cross-check; panics caught",
